@@ -198,8 +198,9 @@ def St.delSpace (st : St) (p : Path) : Option St :=
   else
     let removed := st.ids.filter (isPrefix p)
     let toUpdate := (removed.flatMap st.subs).eraseDups.filter (fun q => !removed.contains q)
-    let st1 : St := { st with spaces := (st.spaces.filter (fun s => !removed.contains s.id)).map
-      (fun s => { s with bases := s.bases.filter (fun b => !removed.contains b) }) }
+    let kept := (st.spaces.filter (fun s => !removed.contains s.id)).map
+      (fun s => { s with bases := s.bases.filter (fun b => !removed.contains b) })
+    let st1 : St := { st with spaces := kept }
     some (st1.updateAll toUpdate)
 
 /-- one sub space of `SpaceManager.new_cells` / `new_ref` -/
@@ -323,6 +324,17 @@ def St.setRef (st : St) (p : Path) (name : String) (v : Nat) : Option St :=
       | some .space => none
       | _ => st.newRef p name v
 
+/-- `ModelImpl.set_attr`: refused when a top-level space bears the name (and for invalid names:
+`Model.__setattr__` checks `is_valid_name`); no check against the members of any space -/
+def St.setGlobal (st : St) (name : String) : Option St :=
+  if (st.childNames []).contains name then none
+  else if !Names.isValidName kw name then none
+  else some { st with globals := if st.globals.contains name then st.globals else st.globals ++ [name] }
+
+/-- `ModelImpl.del_attr` for a model-level reference -/
+def St.delGlobal (st : St) (name : String) : Option St :=
+  if st.globals.contains name then some { st with globals := st.globals.filter (· != name) } else none
+
 /-- the whole step function of the driver -/
 inductive Op
   | newSpace (parent : Path) (name : String) (bases : List Path)
@@ -335,6 +347,8 @@ inductive Op
   | removeBases (p : Path) (bs : List Path)
   | setRef (p : Path) (name : String) (v : Nat)
   | delRef (p : Path) (name : String)
+  | setGlobal (name : String)      -- `model.name = value` (`ModelImpl.set_attr`)
+  | delGlobal (name : String)      -- `del model.name`
   deriving Repr
 
 def St.apply (st : St) : Op → Option St
@@ -348,6 +362,8 @@ def St.apply (st : St) : Op → Option St
   | .removeBases p bs => st.removeBases p bs
   | .setRef p name v => st.setRef kw p name v
   | .delRef p name => st.delMember .refs p name
+  | .setGlobal name => st.setGlobal kw name
+  | .delGlobal name => st.delGlobal name
 
 /-- a rejected operation leaves the state as it is -/
 def St.step (st : St) (op : Op) : St × Bool :=
